@@ -123,6 +123,24 @@ def _hir_strs(j, out=None):
     return out
 
 
+def _hir_name_fn_pairs(j, out=None):
+    """(string literal, fn path) for every tuple `("name", some_fn)` in a typed-HIR tree (registry tables)."""
+    if out is None:
+        out = []
+    if isinstance(j, dict):
+        if j.get("k") == "Tup" and isinstance(j.get("elems"), list) and len(j["elems"]) == 2:
+            a, b = j["elems"]
+            if isinstance(a, dict) and a.get("k") == "Lit" and (a.get("lit") or {}).get("lk") == "str" and isinstance(b, dict) and \
+                    b.get("k") == "Path" and (b.get("path") or {}).get("def_kind") in ("Fn", "AssocFn"):
+                out.append((a["lit"]["v"], b["path"]["path"]))
+        for v in j.values():
+            _hir_name_fn_pairs(v, out)
+    elif isinstance(j, list):
+        for v in j:
+            _hir_name_fn_pairs(v, out)
+    return out
+
+
 def _mir_consts(j, out):
     if isinstance(j, dict):
         if j.get("k") == "const" and isinstance(j.get("repr"), str):
@@ -154,8 +172,21 @@ class Program:
         self.lib = self.crates.get("suiron-lib")
         # named constants of the lib: path -> string literals of the initialiser (in source order)
         self.const_strs = {}
+        self.const_pairs = {}       # path -> [(string literal, function path)] for tables of (name, fn) tuples
         for cj in (self.lib or {}).get("consts", []):
             self.const_strs[cj["path"]] = _hir_strs(cj.get("hir"))
+            pairs = _hir_name_fn_pairs(cj.get("hir"))
+            if pairs:
+                self.const_pairs[cj["path"]] = pairs
+
+    def consts_mentioned(self, body):
+        """Named constants a function (with its closures) mentions."""
+        out = []
+        for b in [body] + [c for c in self.lib_bodies() if c.kind == "Closure" and (c.parent == body.path or c.path.startswith(body.path + "::"))]:
+            for r in _mir_consts(b.mir, []):
+                if r in self.const_strs and r not in out:
+                    out.append(r)
+        return out
 
     def str_literals(self, body):
         """String literals a function can see: those in its own MIR and in the closures defined in it, plus the
